@@ -357,6 +357,39 @@ static void body()
         if (k > s.size() && k < 2 * s.size()) vrt::count("right.n_between_size_and_2size");
         vrt::distinct(vrt::fnv_u64(k, vrt::fnv_u64(count, vrt::fnv_u64(static_cast<uint64_t>(start), vrt::fnv1a(s.data(), s.size(), 15)))));
     });
+    // slices of 256 MiB and more out of a string longer than that (such strings come from the library's own non-validating
+    // producers): about 3 s and 0.8 GB, one case
+    if (vrt::opt().scale >= 1.0) {
+        vrt::require("huge.slices", 6);
+        vrt::phase("huge_slices", 1, [&](uint64_t, Rng &) {
+            vrt::case_cpu_budget() = 900;
+            const size_t half = (size_t(1) << 27) + 24, total = 2 * half + 2;
+            vrt::cur_printf("slices of a %zu-byte string\n", total);
+            ST::char_buffer b;
+            b.allocate(total, 'x');
+            b[0] = ' '; b[total - 1] = ' '; b[half] = ';';
+            const ST::string L = ST::string::from_validated(std::move(b));
+            auto chk = [&](const char *op, const ST::string &r, size_t from, size_t n) {
+                vrt::evals();
+                vrt::count("huge.slices");
+                if (r.size() != n || memcmp(r.c_str(), L.c_str() + from, n) != 0 || r.c_str()[n] != 0)
+                    vrt::violation(sfmt("C08:%s:wrong-result", op), sfmt("huge subject (%zu bytes): result of %zu bytes, expected %zu bytes from offset %zu", total, r.size(), n, from));
+            };
+            try {
+                chk("substr", L.substr(1, total - 2), 1, total - 2);
+                chk("substr", L.substr(-static_cast<ST_ssize_t>(total - 3)), 3, total - 3);
+                chk("left", L.left(total - 1), 0, total - 1);
+                chk("right", L.right(total - 5), 5, total - 5);
+                chk("trim", L.trim(), 1, total - 2);
+                chk("after_first", L.after_first(' '), 1, total - 1);
+                chk("before_last", L.before_last(" "), 0, total - 1);
+                chk("after_first", L.after_first(';'), half + 1, total - half - 1);
+            } catch (const std::exception &e) {
+                vrt::violation(sfmt("C08:huge-slice:%s", vrt::demangle(typeid(e).name()).c_str()), e.what());
+            }
+            vrt::case_cpu_budget() = 30;
+        });
+    }
     vrt::alloc::check_pairing("slice");
 }
 
